@@ -48,6 +48,10 @@ THEOREMS = [
     dict(name="Snow.C13.buffer_in_range_2D", clause="2D: IndexError iff the extra post-nucleation row meets a full cooling buffer", strength="full"),
     dict(name="Snow.C13.history_aligned_2D", clause="2D: equal lengths i_save_end+1+(i_save-1), time = dt*step, shelfTemp = profile[step], steps non-decreasing", strength="full"),
     dict(name="Snow.C13.time_nondecreasing_2D", clause="2D: time axis non-decreasing", strength="full"),
+    dict(name="Snow.C13.study_partial_counterexample", clause="sequential Nrep>1 study (K6-only code): a later repetition that raises leaves the histories of the last completed repetition readable (K7)", strength="refutation-of-old-code"),
+    dict(name="Snow.C13.study_fixed_raises", clause="sequential study, repaired run(): after a study that raised every accessor raises", strength="full"),
+    dict(name="Snow.C13.study_fixed_ok", clause="sequential study, repaired run(): a completed study shows its whole table and the histories of its last repetition", strength="full"),
+    dict(name="Snow.C13.runFixed_eq_runK6_observable", clause="the K7 repair does not change what single runs show", strength="full"),
 ]
 TRUSTED = [
     "Lean 4.33 kernel; axioms per theorem listed under coverage.axioms",
@@ -196,6 +200,14 @@ def _cmp_table(case, impl, model):
             # run() raised: the table of the study must not be readable (the model has no result at all)
             if not (isinstance(tab, dict) and "raise" in tab):
                 dis.append(f"run {k}: results table readable after the study raised ({len(tab)} rows)")
+            # histories: the repaired run() (SnowObj.runStudyFixed) leaves none; the K6-only code
+            # (SnowObj.runStudyK6) leaves those of the last completed repetition, all four of equal length.
+            # Both variants of the model are accepted here; the predicates decide which one violates the property.
+            st = [run["snap"][nm] for nm in ARRS]
+            n_read = [len(v) for v in st if isinstance(v, list)]
+            if len(n_read) not in (0, len(ARRS)) or len(set(n_read)) > 1:
+                dis.append(f"run {k}: after the failed study the history accessors are neither all refused nor all "
+                           f"those of one completed repetition: {[len(v) if isinstance(v, list) else v for v in st]}")
             continue
         if not isinstance(tab, list) or len(tab) != len(rows):
             dis.append(f"run {k}: results table impl {tab if not isinstance(tab, list) else len(tab)} rows vs model {len(rows)}")
